@@ -106,7 +106,14 @@ public:
     shared_future(Fn &&fn)
         :_ptr(std::make_shared<future_internal>()) {
         _ptr->result_of(std::forward<Fn>(fn));
-        if (_ptr->pending()) _ptr->resolve_tracer.charge(_ptr);
+        if (_ptr->pending()) {
+            _ptr->resolve_tracer.charge(_ptr);
+        } else {
+            //resolved meanwhile (possibly by another thread) - the tracer is not needed, but
+            //the result must be ordered before a destruction of the state by the last handle,
+            //which can happen without anybody reading the result (pending() is relaxed)
+            std::atomic_thread_fence(std::memory_order_acquire);
+        }
     }
 
 
